@@ -308,4 +308,177 @@ theorem sortNat_strict (l : List Nat) (h : l.Nodup) : (sortNat l).Pairwise (· <
   have h2 := sortNat_sorted l
   exact (h2.and h1).imp (fun ⟨hle, hne⟩ => lt_of_le_of_ne hle hne)
 
+/-! ## alignIndex -/
+
+theorem alignIndex_nil : alignIndex [] = ([], 0, 0) := rfl
+
+theorem alignIndex_concat (pre : List Int) (t : Int) :
+    alignIndex (pre ++ [t]) = alignStep (alignIndex pre) (pre.length, t) := by
+  unfold alignIndex
+  rw [List.length_append, List.length_singleton, List.range_succ,
+    List.zip_append (by simp), List.foldl_append]
+  rfl
+
+/-- the loop invariant of the index-building loop of `align_particles` -/
+structure AlignInv (tags : List Int) (st : List Nat × Nat × Nat) : Prop where
+  perm : st.1.Perm (List.range tags.length)
+  nreal : st.2.1 = (tags.filter (· == localTag)).length
+  le : st.2.1 ≤ tags.length
+  first : ∀ k, k < tags.length →
+    (tags.getD (st.1.getD k 0) 1 == localTag) = decide (k < st.2.1)
+  ident : st.2.2 = 0 → st.1 = List.range tags.length
+
+theorem AlignInv.length {tags : List Int} {st : List Nat × Nat × Nat} (h : AlignInv tags st) :
+    st.1.length = tags.length := by
+  simpa using h.perm.length_eq
+
+theorem AlignInv.getD_lt {tags : List Int} {st : List Nat × Nat × Nat} (h : AlignInv tags st)
+    (k : Nat) (hk : k < tags.length) : st.1.getD k 0 < tags.length := by
+  have hk' : k < st.1.length := by rw [h.length]; exact hk
+  have : st.1.getD k 0 ∈ st.1 := by
+    rw [List.getD_eq_getElem?_getD, List.getElem?_eq_getElem hk', Option.getD_some]
+    exact List.getElem_mem hk'
+  exact List.mem_range.mp (h.perm.subset this)
+
+theorem alignInv_step (pre : List Int) (t : Int) (st : List Nat × Nat × Nat)
+    (h : AlignInv pre st) : AlignInv (pre ++ [t]) (alignStep st (pre.length, t)) := by
+  obtain ⟨idx, next, moves⟩ := st
+  have hlen : idx.length = pre.length := h.length
+  have hperm : idx.Perm (List.range pre.length) := h.perm
+  have hnreal : next = (pre.filter (· == localTag)).length := h.nreal
+  have hle : next ≤ pre.length := h.le
+  have hfirst : ∀ k, k < pre.length →
+      (pre.getD (idx.getD k 0) 1 == localTag) = decide (k < next) := h.first
+  have hident : moves = 0 → idx = List.range pre.length := h.ident
+  have hlt : ∀ k, k < pre.length → idx.getD k 0 < pre.length := h.getD_lt
+  -- reading the extended tag list below the old length
+  have hpre : ∀ j, j < pre.length → (pre ++ [t]).getD j 1 = pre.getD j 1 := by
+    intro j hj
+    simp [List.getD_eq_getElem?_getD, List.getElem?_append_left hj]
+  have hlast : (pre ++ [t]).getD pre.length 1 = t := by
+    simp [List.getD_eq_getElem?_getD]
+  have happ : ∀ k, k < pre.length → (idx ++ [pre.length]).getD k 0 = idx.getD k 0 := by
+    intro k hk
+    simp [List.getD_eq_getElem?_getD, List.getElem?_append_left (hlen ▸ hk)]
+  have happl : (idx ++ [pre.length]).getD pre.length 0 = pre.length := by
+    simp [List.getD_eq_getElem?_getD, ← hlen]
+  unfold alignStep
+  simp only
+  by_cases ht : (t == localTag) = true
+  · rw [if_pos ht]
+    by_cases hn : (pre.length != next) = true
+    · rw [if_pos hn]
+      have hn' : next < pre.length := by
+        have : pre.length ≠ next := by simpa using hn
+        omega
+      have hn'' : next < idx.length := hlen ▸ hn'
+      refine ⟨?_, ?_, ?_, ?_, ?_⟩
+      · simp only [List.length_append, List.length_singleton, List.range_succ]
+        rw [List.getD_eq_getElem?_getD, List.getElem?_eq_getElem hn'', Option.getD_some]
+        exact (set_append_perm idx next hn'' pre.length).trans (hperm.append_right _)
+      · simp only [List.filter_append, List.length_append, hnreal]
+        simp [ht]
+      · simp; omega
+      · intro k hk
+        simp only [List.length_append, List.length_singleton] at hk
+        simp only
+        by_cases hk1 : k = next
+        · subst hk1
+          have : (idx.set k pre.length ++ [idx.getD k 0]).getD k 0 = pre.length := by
+            simp [List.getD_eq_getElem?_getD, List.getElem?_append_left, hn'']
+          rw [this, hlast, ht]
+          simp
+        · by_cases hk2 : k < pre.length
+          · have : (idx.set next pre.length ++ [idx.getD next 0]).getD k 0 = idx.getD k 0 := by
+              have hk3 : k < (idx.set next pre.length).length := by simp; omega
+              simp only [List.getD_eq_getElem?_getD, List.getElem?_append_left hk3]
+              rw [List.getElem?_set_ne (by omega)]
+            rw [this, hpre _ (hlt k hk2), hfirst k hk2]
+            simp only [decide_eq_decide]
+            omega
+          · have hk3 : k = pre.length := by omega
+            subst hk3
+            have : (idx.set next pre.length ++ [idx.getD next 0]).getD pre.length 0
+                = idx.getD next 0 := by
+              simp [List.getD_eq_getElem?_getD, ← hlen]
+            rw [this, hpre _ (hlt next hn'), hfirst next hn']
+            simp only [decide_eq_decide]
+            omega
+      · intro h0
+        simp at h0
+    · rw [if_neg hn]
+      have hn' : pre.length = next := by simpa using hn
+      refine ⟨?_, ?_, ?_, ?_, ?_⟩
+      · simp only [List.length_append, List.length_singleton, List.range_succ]
+        exact hperm.append_right _
+      · simp only [List.filter_append, List.length_append, hnreal]
+        simp [ht]
+      · simp; omega
+      · intro k hk
+        simp only [List.length_append, List.length_singleton] at hk
+        simp only
+        by_cases hk2 : k < pre.length
+        · rw [happ k hk2, hpre _ (hlt k hk2), hfirst k hk2]
+          simp only [decide_eq_decide]
+          omega
+        · have hk3 : k = pre.length := by omega
+          subst hk3
+          rw [happl, hlast, ht]
+          simp; omega
+      · intro h0
+        simp only at h0
+        simp only [List.length_append, List.length_singleton, List.range_succ]
+        rw [hident h0]
+  · rw [if_neg ht]
+    refine ⟨?_, ?_, ?_, ?_, ?_⟩
+    · simp only [List.length_append, List.length_singleton, List.range_succ]
+      exact hperm.append_right _
+    · simp only [List.filter_append, List.length_append, hnreal]
+      simp [ht]
+    · simp; omega
+    · intro k hk
+      simp only [List.length_append, List.length_singleton] at hk
+      simp only
+      by_cases hk2 : k < pre.length
+      · rw [happ k hk2, hpre _ (hlt k hk2), hfirst k hk2]
+      · have hk3 : k = pre.length := by omega
+        subst hk3
+        rw [happl, hlast]
+        simp only [Bool.not_eq_true] at ht
+        rw [ht]
+        simp; omega
+    · intro h0
+      simp only at h0
+      simp only [List.length_append, List.length_singleton, List.range_succ]
+      rw [hident h0]
+
+theorem alignInv (tags : List Int) : AlignInv tags (alignIndex tags) := by
+  induction tags using List.reverseRecOn with
+  | nil =>
+    rw [alignIndex_nil]
+    exact ⟨by simp, by simp, by simp, by simp, by simp⟩
+  | append_singleton pre t ih =>
+    rw [alignIndex_concat]
+    exact alignInv_step pre t _ ih
+
+theorem alignIndex_perm (tags : List Int) :
+    (alignIndex tags).1.Perm (List.range tags.length) := (alignInv tags).perm
+
+theorem alignIndex_length (tags : List Int) : (alignIndex tags).1.length = tags.length :=
+  (alignInv tags).length
+
+theorem alignIndex_nreal (tags : List Int) :
+    (alignIndex tags).2.1 = (tags.filter (· == localTag)).length := (alignInv tags).nreal
+
+theorem alignIndex_nreal_le (tags : List Int) : (alignIndex tags).2.1 ≤ tags.length :=
+  (alignInv tags).le
+
+theorem alignIndex_real_first (tags : List Int) (k : Nat) (hk : k < tags.length) :
+    (tags.getD ((alignIndex tags).1.getD k 0) 1 == localTag)
+      = decide (k < (alignIndex tags).2.1) := (alignInv tags).first k hk
+
+theorem alignIndex_moves_zero (tags : List Int) :
+    (alignIndex tags).2.2 = 0 → (alignIndex tags).1 = List.range tags.length :=
+  (alignInv tags).ident
+
 end PysphVerif.PArray
